@@ -435,11 +435,25 @@ class LinalgH(_Arr):
 
     def setup(self, c, case):
         p, A, b, lo, hi = sym_polyhedron(c, case["rows"], case["cols"])
-        return {"p": p, "A": A, "b": b}
+        return {"p": p, "A": A, "b": b, "lo": lo, "hi": hi}
 
     def run(self, c, st):
         self.begin_call(c)
         return st["p"].to_linalg()
+
+    def native_violations(self, p, w):
+        import numpy as np
+        A_, b_ = p.to_linalg()
+        bad = []
+        if tuple(A_.shape) != (len(w["A"]), len(w["A"][0])) or tuple(b_.shape) != (len(w["A"]),):
+            return ["to_linalg.shape"]
+        if np.asarray(A_).tolist() != [list(r) for r in w["A"]]:
+            bad.append("to_linalg.A")
+        if [int(x) for x in np.asarray(b_).tolist()] != [int(x) for x in w["b"]]:
+            bad.append("to_linalg.b")
+        if [v.id for v in A_.variables] != [f"v{j}" for j in range(len(w["A"][0]))]:
+            bad.append("to_linalg.variables")
+        return bad
 
     def ensures(self, c, st, res):
         A_, b_ = res
